@@ -334,6 +334,14 @@ def stale_what(X: dict, Y: dict, data: str, params: list, attrs: list, got: dict
     )
 
 
+def _verification(p: str, vx: int, vy: int, tlv: bytes) -> tuple[list[dict], list[dict]]:
+    base = R.SPECS[0]
+    Xs = dict(base, name=f'{p}={vx}', **{p: bool(vx)})
+    Ys = dict(base, name=f'{p}={vy}', **{p: bool(vy)})
+    body = R.update_body(b'', tlv, R.NLRIS['10/24']).hex()
+    return [Xs, Ys], [{'s': 0, 't': 2, 'body': body}, {'s': 1, 't': 2, 'body': body}]
+
+
 def verified_stale(run: Runner, memo: dict, p: str, vx: int, vy: int, tlv: bytes, may_run: bool) -> tuple[dict, str] | None | bool:
     """Is this attribute alone, parsed on the base shape with p=vx, served stale to the base shape with p=vy?
     Asked of the real code once per (p, direction, TLV); (replay, what) | False | None (= not known, no budget)."""
@@ -342,21 +350,45 @@ def verified_stale(run: Runner, memo: dict, p: str, vx: int, vy: int, tlv: bytes
         return memo[key]
     if not may_run:
         return None
-    base = R.SPECS[0]
-    Xs = dict(base, name=f'{p}={vx}', **{p: bool(vx)})
-    Ys = dict(base, name=f'{p}={vy}', **{p: bool(vy)})
-    body = R.update_body(b'', tlv, R.NLRIS['10/24']).hex()
-    steps = [{'s': 0, 't': 2, 'body': body}, {'s': 1, 't': 2, 'body': body}]
-    r = run.run_case([Xs, Ys], steps)
+    specs, steps = _verification(p, vx, vy, tlv)
+    r = run.run_case(specs, steps)
     if r is None:
         return None
     seq, twins = r
     if has(failures_of(seq, twins), 'history', 1) and seq['steps'][1]['calls'] and seq['steps'][1]['calls'][0]['hit']:
         code = tlv[1] if len(tlv) > 1 else 0
-        memo[key] = ({'specs': [Xs, Ys], 'steps': steps}, stale_what(Xs, Ys, tlv.hex(), [p], [code], seq['steps'][1]['render'], twins[1]['render']))
+        memo[key] = ({'specs': specs, 'steps': steps}, stale_what(specs[0], specs[1], tlv.hex(), [p], [code], seq['steps'][1]['render'], twins[1]['render']))
     else:
         memo[key] = False
     return memo[key]
+
+
+def prefetch_verifications(run: Runner, cases: list[dict], pending: list[tuple[int, dict]], codes: set, limit: int) -> int:
+    """Submit at once (they run in parallel) the verifications the canonical forms below will ask for: the attributes
+    of the failing blocks whose code already has a reported class."""
+    wanted: dict = {}
+    for ci, f in pending:
+        if f['kind'] != 'history' or len(wanted) >= limit:
+            continue
+        c = cases[ci]
+        seq = run.ok(c['id'])
+        i = f['step']
+        j = storing_step(seq, i) if seq else None
+        if j is None or c['steps'][i]['t'] != 2:
+            continue
+        pX, pY = seq['steps'][j]['params'], seq['steps'][i]['params']
+        t2 = _tlvs_of_update(bytes.fromhex(c['steps'][i]['body']))
+        if t2 is None:
+            continue
+        for prm in (k for k in pX if pX[k] != pY[k]):
+            for tlv, code in t2[1]:
+                if code in codes:
+                    wanted.setdefault((prm, pX[prm], pY[prm], bytes(tlv).hex()), None)
+    for prm, vx, vy, tlvhex in wanted:
+        specs, steps = _verification(prm, vx, vy, bytes.fromhex(tlvhex))
+        run.submit(specs, steps)
+        run.ensure_twins(specs, steps)
+    return len(wanted)
 
 
 def canon_history(run: Runner, specs: list[dict], steps: list[dict], seq: dict, twins: list[dict], f: dict, reported: set, may_shrink: bool, memo: dict) -> tuple[Any, dict, str] | None:
@@ -625,24 +657,28 @@ def _run(ctx: Ctx, rng, quick: bool, wpool: 'R.Pool') -> None:
     for m in mpool:
         ctx.count('pool:' + m.origin)
     regs = registries()
-    ndeliv = int(os.environ.get('VERIF_C19_JOBS', '72' if quick else '900'))
+    ndeliv = int(os.environ.get('VERIF_C19_JOBS', '64' if quick else '900'))
     deliveries = gen_deliveries(rng, mpool, ndeliv)
     for k in range(len(deliveries)):
         length = rng.randrange(20, 70) if quick else rng.choice([rng.randrange(20, 80), rng.randrange(80, 200), rng.randrange(200, 400)])
         idxs = gen_sequence(rng, k, deliveries, length)
         cases.append({'specs': R.SPECS, 'steps': [step_of(deliveries[i], mpool) for i in idxs], 'origin': 'random'})
-    for c in cases:
-        c['id'] = run.submit(c['specs'], c['steps'])
-    for c in cases:
+    for c in cases:  # corpus first, each with the fresh twins of its steps
         if c['origin'] == 'corpus':
+            c['id'] = run.submit(c['specs'], c['steps'])
             run.ensure_twins(c['specs'], c['steps'])
+    for c in cases:
+        if c['origin'] != 'corpus':
+            c['id'] = run.submit(c['specs'], c['steps'])
     ctx.count('jobs:submitted', run.next_id)
+    timing = {'generate_s': round(time.time() - t_start, 1)}
 
     reserve = 14 if quick else 150  # for the model and for shrinking
-    wpool.wait(None, timeout=max(5.0, min(ctx.time_left() - reserve, 60.0 if quick else 520.0)))
+    wpool.wait(None, timeout=max(5.0, min(ctx.time_left() - reserve, 50.0 if quick else 520.0)))
     wpool.drop_pending()
-    wpool.wait(None, timeout=30.0)  # the interpreters in flight
+    wpool.wait(None, timeout=20.0 if quick else 60.0)  # the interpreters in flight
     ctx.count('jobs:done-in-time', sum(1 for r in wpool.results.values() if not r.get('skipped')))
+    timing['jobs_s'] = round(time.time() - t_start - timing['generate_s'], 1)
 
     pa, pb = run.ok(probe_ids[0]), run.ok(probe_ids[1])
     if pa is None or pb is None:
@@ -737,13 +773,22 @@ def _run(ctx: Ctx, rng, quick: bool, wpool: 'R.Pool') -> None:
                 if len(ctx.disagreements) < 10:
                     ctx.disagreements.append(Disagreement('decode-cache', {'case': ci, 'line': line[:200], 'info': info, 'origin': cases[ci]['origin']}, got, want))
 
+    timing['evaluate_and_model_s'] = round(time.time() - t_start - timing['generate_s'] - timing['jobs_s'], 1)
     # the oracle failures: canonical form, each class once (corpus cases come first and are already minimal)
     reported: set = set()
     memo: dict = {}
     main_jobs = run.next_id
     unshrunk = 0
+    prefetched = False
     for ci, f in pending_fail:
         c = cases[ci]
+        if c['origin'] != 'corpus' and not prefetched:
+            prefetched = True
+            codes = {a for k in reported for a in json.loads(k).get('attrs', [])}
+            if codes and ctx.time_left() > 10:
+                n = prefetch_verifications(run, cases, pending_fail, codes, 40 if quick else 300)
+                wpool.wait(None, timeout=max(1.0, min(ctx.time_left() - 8, 60.0 if quick else 300.0)))
+                ctx.count('verifications-prefetched', n)
         seq = run.ok(c['id'])
         twins = [run.twin(c['specs'][st['s']], st) for st in c['steps']]
         may_shrink = ctx.time_left() > 6 and run.next_id - main_jobs < (60 if quick else 400)
@@ -770,6 +815,8 @@ def _run(ctx: Ctx, rng, quick: bool, wpool: 'R.Pool') -> None:
         ctx.notes.append(f'{unshrunk} oracle failure classes reported without shrinking (budget)')
     steps_total = sum(len(c['steps']) for c in cases if run.ok(c['id']) is not None)
     ctx.extra['rate_per_s'] = round(steps_total / max(time.time() - t_start, 0.1), 1)
+    timing['canonical_forms_s'] = round(time.time() - t_start - sum(timing.values()), 1)
+    ctx.extra['timing'] = timing
     ctx.extra['jobs'] = {'submitted': run.next_id, 'interpreters_in_parallel': wpool.k, 'decoded_in_sequence': steps_total}
 
 
